@@ -7,6 +7,13 @@ from hypothesis import strategies as st
 from . import model as M
 from . import strategies as S
 
+
+def _sanitize(m):
+    from harness.sanitize import sanitize
+    return sanitize(m)
+
+
+
 NS = [1, 2, 3, 4, 5, 6, 8, 9, 12]
 BASES = [math.e, 2, 10, 0.5, 3, 2.0, 0.25]
 
@@ -210,7 +217,7 @@ def placed(draw, names, depth=2):
         red = M.replace(red2, draw(st.sampled_from(ps)), red)
         name = name + "+" + name2
     if draw(st.integers(0, 2)) == 0:
-        return name, M.cap_powers(red)
+        return name, _sanitize(red)
     outer = draw(S.trees(names, depth=depth))
     ps = M.paths(outer, limit=80)
-    return name, M.cap_powers(M.replace(outer, draw(st.sampled_from(ps)), red))
+    return name, _sanitize(M.replace(outer, draw(st.sampled_from(ps)), red))
